@@ -160,6 +160,15 @@ def main(tier):
     pipecheck.run_sched_replay(ck, sp, ssim)
     jobs, out = trace_jobs(ck, tier, rng)
     pipecheck.run_traces(ck, jobs, out)
+    # the other build configurations of the library: OpenMP threading instead of pthreads, and 64-bit indices (_LONGINT);
+    # same hooks, same specification (the thread-count clause compares against the OpenMP runtime's pool, created beforehand)
+    for variant, cnt in (("omp", 8 if tier == "quick" else 120), ("longint", 6 if tier == "quick" else 120)):
+        vout = os.path.join(ck.dir, "tr_" + variant)
+        os.makedirs(vout, exist_ok=True)
+        vjobs = [pipe.random_job(rng, 5000 + i, vout, nmax=30 if tier == "quick" else 80, threads=(2, 3, 4, 8)) for i in range(cnt)]
+        build.ensure(variant)
+        pipecheck.run_traces(ck, vjobs, vout, variant=variant)
+        ck.notes["traces_" + variant + "_build"] = cnt
     # the repository's own test driver (TESTING/p?drive.c, unmodified) as a trace generator: every factorization it
     # performs with 4 threads is recorded through the hooks and must be a behaviour of SluPipe
     ex = os.path.join(build.REPO, "EXAMPLE")
